@@ -345,7 +345,13 @@ impl Popen {
             child_state: ChildState::Preparing,
             detached: config.detached,
         };
-        inst.os_start(argv, config)?;
+        if let Err(e) = inst.os_start(argv, config) {
+            // The caller never gets a Popen to wait on, so a child that was
+            // forked but failed to exec must be reaped here even if
+            // `detached` was requested.
+            inst.detached = false;
+            return Err(e);
+        }
         Ok(inst)
     }
 
